@@ -74,7 +74,7 @@ func RunCheck(w *World, o CheckOpts) int {
 			timeout = 300
 		}
 	}
-	par := make(chan struct{}, runtime.NumCPU())
+	par := make(chan struct{}, solverSlots())
 	smtDir := filepath.Join(os.TempDir(), fmt.Sprintf("govc-%s-%d", o.Prop, os.Getpid()))
 	defer os.RemoveAll(smtDir)
 	outs := make([]*funcOutcome, len(keys))
@@ -204,7 +204,7 @@ func RunCheck(w *World, o CheckOpts) int {
 		if o.Only != "" {
 			break
 		}
-		ok, out := runBoundedTest(o.VerifDir, bt)
+		ok, out := runBoundedTest(w.Dir, o.VerifDir, bt)
 		rec := map[string]string{"name": bt.Name, "bound": bt.Bound, "result": "pass", "kind": "bounded stand-in (exhaustive execution of the real functions over the stated domain), NOT a proof"}
 		if m := regexp.MustCompile(`GOVC-BOUNDED cases=(\d+)`).FindStringSubmatch(out); m != nil {
 			rec["cases_executed"] = m[1]
@@ -375,19 +375,34 @@ func WriteBaseline(w *World, prop, verifDir string) error {
 }
 
 // runBoundedTest runs one bounded stand-in in its package through an overlay (nothing is written into the repository).
-func runBoundedTest(verifDir string, bt BoundedTest) (bool, string) {
+func runBoundedTest(repoDir, verifDir string, bt BoundedTest) (bool, string) {
+	if repoDir == "" {
+		repoDir = "/repo"
+	}
 	tmp, err := os.MkdirTemp("", "govc-bounded")
 	if err != nil {
 		return false, err.Error()
 	}
 	defer os.RemoveAll(tmp)
-	ov := map[string]map[string]string{"Replace": {filepath.Join("/repo", bt.PkgDir, "zz_govc_bounded_test.go"): filepath.Join(verifDir, bt.File)}}
+	ov := map[string]map[string]string{"Replace": {filepath.Join(repoDir, bt.PkgDir, "zz_govc_bounded_test.go"): filepath.Join(verifDir, bt.File)}}
 	b, _ := json.Marshal(ov)
 	ovf := filepath.Join(tmp, "ov.json")
 	os.WriteFile(ovf, b, 0o644)
-	cmd := exec.Command("bash", "-c", fmt.Sprintf("cd /repo/%s && go test -overlay %s -vet=off -count=1 -v -timeout 600s -run '^%s$' .", bt.PkgDir, ovf, bt.Run))
+	cmd := exec.Command("bash", "-c", fmt.Sprintf("cd "+repoDir+"/%s && go test -overlay %s -vet=off -count=1 -v -timeout 600s -run '^%s$' .", bt.PkgDir, ovf, bt.Run))
 	cmd.Env = append(os.Environ(), "GOFLAGS=-mod=mod", "GOPROXY=off", "GOSUMDB=off", "GOTOOLCHAIN=local")
 	out, _ := cmd.CombinedOutput()
 	s := string(out)
 	return strings.Contains(s, "--- PASS: "+bt.Run) && !strings.Contains(s, "--- FAIL"), trim(s, 4000)
 }
+
+// SolverSlots: each slot races three solver processes, so a slot per core would oversubscribe the machine threefold
+// and stretch every query's latency towards its timeout.
+func SolverSlots() int {
+	n := runtime.NumCPU() * 3 / 8
+	if n < 2 {
+		n = 2
+	}
+	return n
+}
+
+func solverSlots() int { return SolverSlots() }
